@@ -1,11 +1,12 @@
 #!/bin/bash
-# usage: matrix.sh <out.tsv> [patch-dir...]: for every seeded change, apply it in a scratch worktree
-# (outside /repo and /verif), run every check (quick) against that worktree, record which ones report a violation.
+# usage: matrix.sh <out.tsv> <seeded-dir>... : for every seeded change, apply it in a scratch worktree
+# (outside /repo and /verif), run every check (quick) against that worktree (VERIF_REPO), and record
+# which checks report a violation and with which signature.  IDS="C01 C07" restricts the checks.
 out="$1"; shift
-wt=/tmp/matrix-wt
-rm -rf $wt; git -C /repo worktree prune; git -C /repo worktree add -q --detach $wt HEAD || exit 3
+wt=/tmp/matrix-wt-$$
+git -C /repo worktree prune; git -C /repo worktree add -q --detach $wt HEAD || exit 3
 trap 'git -C /repo worktree remove --force $wt' EXIT
-ids=$(python3 -c "import sys;sys.path.insert(0,'/verif');from checks_table import CHECKS;print(' '.join(sorted(CHECKS)))")
+ids=${IDS:-$(python3 -c "import sys;sys.path.insert(0,'/verif');from checks_table import CHECKS;print(' '.join(sorted(CHECKS)))")}
 : > "$out"
 for d in "$@"; do
   name=$(basename $d)
@@ -15,9 +16,13 @@ for d in "$@"; do
   git -C $wt checkout -q -- . && git -C $wt apply $rev $patch || { echo "$name	PATCH-FAILS" >> "$out"; continue; }
   caught=""
   for id in $ids; do
-    VERIF_REPO=$wt /verif/check $id > /tmp/matrix.out 2>&1; rc=$?
-    if [ $rc = 1 ]; then caught="$caught $id"; elif [ $rc != 0 ]; then caught="$caught $id(rc$rc)"; fi
+    VERIF_REPO=$wt /verif/check $id > /tmp/matrix.$$.out 2>&1; rc=$?
+    if [ $rc = 1 ]; then
+      sig=$(grep -a "what:" /tmp/matrix.$$.out | head -1 | awk '{print $2}')
+      caught="$caught $id[$sig]"
+    elif [ $rc != 0 ]; then caught="$caught $id(rc$rc)"; fi
   done
   echo "$name	$caught" >> "$out"
   echo "$name -> $caught"
 done
+rm -f /tmp/matrix.$$.out
